@@ -394,55 +394,223 @@ func envCase(c *Ctx, r *Rng) {
 // ------------------------------------------------------------------------------------------------
 // input
 
-func inputCase(c *Ctx, r *Rng) {
-	n := r.Intn(6)
-	vals := make([]any, n)
-	var vb strings.Builder
-	for i := range vals {
-		vals[i] = 50 + r.Intn(10)
-		fmt.Fprintf(&vb, " %d", vals[i])
+// itemIter: an input iterator whose Next yields values and error values at chosen positions
+type inItem struct {
+	err bool
+	n   int
+}
+type itemIter struct {
+	items []inItem
+	pos   int
+	calls int
+}
+type itemErr struct{ n int }
+
+func (e *itemErr) Error() string { return "ie:" + strconv.Itoa(e.n) }
+func (it *itemIter) Next() (any, bool) {
+	it.calls++
+	if it.pos >= len(it.items) {
+		return nil, false
 	}
-	k := r.Intn(8)
-	res := compileWith(fmt.Sprintf(`[range(%d) | try input catch "break:\(.)"]`, k), []gojq.CompilerOption{gojq.WithInputIter(gojq.NewIter(vals...))})
+	x := it.items[it.pos]
+	it.pos++
+	if x.err {
+		return &itemErr{x.n}, true
+	}
+	return x.n, true
+}
+
+func genItems(r *Rng) []inItem {
+	n := r.Intn(7)
+	items := make([]inItem, n)
+	mode := r.Intn(6) // 0 none, 1 first, 2 middle, 3 consecutive, 4 last, 5 random
+	for i := range items {
+		items[i] = inItem{n: 50 + r.Intn(10)}
+		switch mode {
+		case 1:
+			items[i].err = i == 0
+		case 2:
+			items[i].err = i == n/2
+		case 3:
+			items[i].err = i == n/2 || i == n/2+1
+		case 4:
+			items[i].err = i == n-1
+		case 5:
+			items[i].err = r.Chance(1, 3)
+		}
+	}
+	return items
+}
+
+// inputSim: the reading "one item per call, in order"
+type inputSim struct {
+	items []inItem
+	pos   int
+}
+
+// call returns ("v", n) | ("e", n) | ("b", 0)
+func (s *inputSim) call() (string, int) {
+	if s.pos >= len(s.items) {
+		return "b", 0
+	}
+	x := s.items[s.pos]
+	s.pos++
+	if x.err {
+		return "e", x.n
+	}
+	return "v", x.n
+}
+
+func inputCase(c *Ctx, r *Rng) {
+	items := genItems(r)
+	var vb strings.Builder
+	for _, x := range items {
+		if x.err {
+			fmt.Fprintf(&vb, " (e %d)", x.n)
+		} else {
+			fmt.Fprintf(&vb, " %d", x.n)
+		}
+	}
+	// model line: one Code, several Runs, every call under try; the calls of all runs concatenated
+	k, runs := r.Intn(5), 1+r.Intn(3)
+	res := compileWith(fmt.Sprintf(`[range(%d) | try input catch .]`, k), []gojq.CompilerOption{gojq.WithInputIter(&itemIter{items: items})})
 	if res.err != nil || res.code == nil {
 		c.Violation("input with WithInputIter does not compile: %v", res.err)
 		return
 	}
-	out := collect(res.code.Run(nil), 2)
 	var b strings.Builder
-	if len(out) == 1 {
-		if a, ok := out[0].([]any); ok {
-			for _, x := range a {
-				switch x := x.(type) {
-				case int:
-					fmt.Fprintf(&b, " %d", x)
-				case string:
-					if x == "break:break" {
-						b.WriteString(" break")
-					} else {
-						b.WriteString(" (odd " + Hexs([]byte(x)) + ")")
-					}
+	for run := 0; run < runs; run++ {
+		out := collect(res.code.Run(nil), 2)
+		if len(out) != 1 {
+			b.WriteString(" (odd -)")
+			continue
+		}
+		a, _ := out[0].([]any)
+		if len(a) != k {
+			b.WriteString(" (odd -)")
+		}
+		for _, x := range a {
+			switch x := x.(type) {
+			case int:
+				fmt.Fprintf(&b, " %d", x)
+			case string:
+				switch {
+				case x == "break":
+					b.WriteString(" break")
+				case strings.HasPrefix(x, "ie:"):
+					b.WriteString(" (e " + x[3:] + ")")
 				default:
-					b.WriteString(" (odd -)")
+					b.WriteString(" (odd " + Hexs([]byte(x)) + ")")
 				}
+			default:
+				b.WriteString(" (odd -)")
 			}
 		}
 	}
-	c.Emit("(input (vals%s) %d (impl%s))", vb.String(), k, b.String())
+	c.Emit("(input (vals%s) %d (impl%s))", vb.String(), k*runs, b.String())
 	c.Count("input")
-	// inputs drains the rest in order (implementation-only)
-	it := gojq.NewIter(vals...)
-	res = compileWith("[first(input)?, [inputs]]", []gojq.CompilerOption{gojq.WithInputIter(it)})
-	if res.code != nil {
-		out := collect(res.code.Run(nil), 2)
-		want := []any{}
-		if n > 0 {
-			want = append(want, vals[0], append([]any{}, vals[1:]...))
-		} else {
-			want = append(want, []any{})
+
+	// implementation-only: the same reading through other consumers; expected values from inputSim
+	str := func(kind string, n int) any {
+		if kind == "v" {
+			return n
 		}
-		if len(out) != 1 || gojq.Compare(out[0], want) != 0 {
-			c.Violation("[first(input)?, [inputs]] over iterator %v gave %v", vals, out)
+		return "E"
+	}
+	type tcase struct {
+		src    string
+		expect func(s *inputSim) any
+	}
+	kk := 1 + r.Intn(4)
+	each := func(f func(kind string, n int) []any) func(s *inputSim) any {
+		return func(s *inputSim) any {
+			out := []any{}
+			for i := 0; i < kk; i++ {
+				out = append(out, f(s.call())...)
+			}
+			return out
+		}
+	}
+	cases := []tcase{
+		{fmt.Sprintf(`[range(%d) | input?]`, kk), each(func(kind string, n int) []any {
+			if kind == "v" {
+				return []any{n}
+			}
+			return nil
+		})},
+		{fmt.Sprintf(`[range(%d) | ((try input catch null) // "A")]`, kk), each(func(kind string, n int) []any {
+			if kind == "v" {
+				return []any{n}
+			}
+			return []any{"A"}
+		})},
+		{fmt.Sprintf(`[limit(%d; repeat(try input catch "E"))]`, kk), each(func(kind string, n int) []any { return []any{str(kind, n)} })},
+		{fmt.Sprintf(`reduce range(%d) as $i ([]; . + [try input catch "E"])`, kk), each(func(kind string, n int) []any { return []any{str(kind, n)} })},
+		{fmt.Sprintf(`[foreach range(%d) as $i (0; . + 1; try input catch "E")]`, kk), each(func(kind string, n int) []any { return []any{str(kind, n)} })},
+		{fmt.Sprintf(`[range(%d) | first(try input catch "E")]`, kk), each(func(kind string, n int) []any { return []any{str(kind, n)} })},
+		{`def f: try input catch "E"; def g: [f, f]; [g, g]`, func(s *inputSim) any {
+			g := func() any {
+				a1, a2 := s.call()
+				b1, b2 := s.call()
+				return []any{str(a1, a2), str(b1, b2)}
+			}
+			x := g()
+			return []any{x, g()}
+		}},
+		{`[first(inputs)?]`, func(s *inputSim) any {
+			if kind, n := s.call(); kind == "v" {
+				return []any{n}
+			}
+			return []any{}
+		}},
+		{`try [inputs] catch "E"`, func(s *inputSim) any {
+			out := []any{}
+			for {
+				kind, n := s.call()
+				switch kind {
+				case "v":
+					out = append(out, n)
+				case "e":
+					return "E"
+				default:
+					return out
+				}
+			}
+		}},
+		{`[.[] | try input catch "E"]`, func(s *inputSim) any {
+			out := []any{}
+			for i := 0; i < 2; i++ {
+				kind, n := s.call()
+				out = append(out, str(kind, n))
+			}
+			return out
+		}},
+	}
+	tc := cases[r.Intn(len(cases))]
+	it := &itemIter{items: items}
+	res = compileWith(tc.src, []gojq.CompilerOption{gojq.WithInputIter(it)})
+	if res.err != nil || res.code == nil {
+		c.Violation("input: %s does not compile with WithInputIter: %v", tc.src, res.err)
+		return
+	}
+	sim := &inputSim{items: items}
+	for run := 0; run < 3; run++ { // several Runs of one Code continue the iterator
+		want := tc.expect(sim)
+		out := collect(res.code.Run([]any{0, 0}), 3)
+		c.Nlines++
+		c.Count("input:consumers")
+		if len(out) != 1 || render(out[0]) != render(want) {
+			got := make([]string, len(out))
+			for i, o := range out {
+				got[i] = render(o)
+			}
+			c.Violation("input: `%s` run #%d on one Code over the iterator [%s] (e = error value) gives %s, expected %s (one item per call, in order)",
+				tc.src, run+1, strings.TrimSpace(vb.String()), strings.Join(got, " ; "), render(want))
+			break
+		}
+		if it.pos != sim.pos && !(sim.pos >= len(items) && it.pos >= len(items)) {
+			c.Violation("input: `%s` run #%d over the iterator [%s] consumed %d items, expected %d", tc.src, run+1, strings.TrimSpace(vb.String()), it.pos, sim.pos)
+			break
 		}
 	}
 }
@@ -1161,6 +1329,92 @@ func runHistory(c *Ctx, n int, exclude map[string]bool) {
 	c.Stats["history_differences"] = diffs
 }
 
+// argument order at every arity 0..30: `vec` returns its argument vector, `pkK` returns xs[K]; the equivalent
+// definitions bind the arguments as values, the LAST one in the outermost loop
+func runArgOrder(c *Ctx) {
+	r := c.Rng
+	opts := []gojq.CompilerOption{
+		gojq.WithFunction("vec", 0, 30, func(_ any, xs []any) any { return append([]any{}, xs...) }), // xs is a shared buffer
+		gojq.WithIterFunction("ivec", 0, 30, func(x any, xs []any) gojq.Iter {
+			return gojq.NewIter[any](append([]any{}, xs...), len(xs))
+		}),
+		gojq.WithVariables([]string{"$v"}),
+	}
+	dopts := []gojq.CompilerOption{gojq.WithVariables([]string{"$v"})}
+	for k := 0; k < 30; k++ {
+		k := k
+		opts = append(opts, gojq.WithFunction("pk"+strconv.Itoa(k), k+1, 30, func(_ any, xs []any) any { return xs[k] }))
+	}
+	defVec := func(n int) string {
+		if n == 0 {
+			return "def d_vec: [];\n"
+		}
+		ps := make([]string, n)
+		for i := range ps {
+			ps[i] = "a" + strconv.Itoa(i)
+		}
+		var b strings.Builder
+		b.WriteString("def d_vec(" + strings.Join(ps, "; ") + "): ")
+		for i := n - 1; i >= 0; i-- {
+			fmt.Fprintf(&b, "a%d as $a%d | ", i, i)
+		}
+		b.WriteString("[")
+		for i := 0; i < n; i++ {
+			if i > 0 {
+				b.WriteString(", ")
+			}
+			fmt.Fprintf(&b, "$a%d", i)
+		}
+		b.WriteString("];\n")
+		return b.String()
+	}
+	diffs := 0
+	cmp := func(native, def string) {
+		a := runCustomProgram(native, opts, "null")
+		b := runCustomProgram(def, dopts, "null")
+		c.Nlines++
+		c.Count("argorder")
+		if a != b {
+			diffs++
+			if diffs <= 5 {
+				c.Violation("custom: `%s` gives %q with Go functions (WithFunction 0..30 returning their argument vector / xs[k]) but %q with the equivalent jq definition `%s`",
+					native, a, b, def)
+			}
+		}
+	}
+	for n := 0; n <= 30; n++ {
+		for rep := 0; rep < 2; rep++ {
+			args := make([]string, n)
+			for i := range args {
+				args[i] = strconv.Itoa(100 + i)
+			}
+			// two generator arguments make the enumeration order visible
+			if n > 0 && rep == 1 {
+				i, j := r.Intn(n), r.Intn(n)
+				args[i] = fmt.Sprintf("(%d, %d)", 1000+i, 2000+i)
+				args[j] = fmt.Sprintf("(%d, %d)", 1000+j, 2000+j)
+			}
+			call := ""
+			if n > 0 {
+				call = "(" + strings.Join(args, "; ") + ")"
+			}
+			cmp("[vec"+call+"]", defVec(n)+"[d_vec"+call+"]")
+			cmp("[ivec"+call+"]", defVec(n)+"[d_vec"+call+" | (., length)]")
+			cmp("[path(vec"+call+")?]", defVec(n)+"[path(d_vec"+call+")?]")
+			ks := []int{0, n - 1, n / 2}
+			if n > 0 {
+				ks = append(ks, r.Intn(n))
+			}
+			for _, k := range ks {
+				if k >= 0 && k < n {
+					cmp(fmt.Sprintf("[pk%d%s]", k, call), defVec(n)+fmt.Sprintf("[d_vec%s | .[%d]]", call, k))
+				}
+			}
+		}
+	}
+	c.Stats["argorder_differences"] = diffs
+}
+
 func runImpl(c *Ctx) {
 	exclude := ""
 	for _, a := range c.Args {
@@ -1171,4 +1425,5 @@ func runImpl(c *Ctx) {
 	runAmbient(c, exclude)
 	runHistory(c, c.N, parseExclude(c.Args))
 	runCustom(c, c.N)
+	runArgOrder(c)
 }
